@@ -331,14 +331,13 @@ Definition checked_result (ct : chartab) (o : ropts) (e : str) (stripped : bool)
     sample_non_matches o mt smp rex all maxN = Ok (fails, re_freqs, smp') /\
     lastfail = ex_strings (fst (clean ct o (map (fun sf => (Some (fst sf), snd sf)) fails))).
 
-Lemma extract_loop_checked fuel ct o e stripped gt mt all : forall samples ex attempt last r ex' smp' passes,
+Lemma extract_loop_checked fuel ct o e stripped gt mt all : forall samples ex attempt r ex' smp' passes,
   ne_samples samples ->
-  (fuel <> O \/ checked_result ct o e stripped gt mt all last) ->
-  extract_loop fuel ct o e stripped gt mt all samples ex attempt last = Ok (r, ex', smp', passes) ->
+  extract_loop fuel ct o e stripped gt mt all samples ex attempt = Ok (r, ex', smp', passes) ->
   checked_result ct o e stripped gt mt all r.
 Proof.
-  induction fuel as [|fuel IH]; intros samples ex attempt last r ex' smp' passes HF Hlast H.
-  - cbn [extract_loop] in H. inversion H; subst. destruct Hlast as [Hf|Hl]; [congruence|exact Hl].
+  induction fuel as [|fuel IH]; intros samples ex attempt r ex' smp' passes HF H.
+  - cbn [extract_loop] in H. discriminate.
   - cbn [extract_loop] in H.
     destruct (batch_extract ct o e stripped gt ex) as [[merged rex]|err] eqn:Eb; cbn [bind] in H; [|discriminate].
     set (maxN := if Z.ltb (z_max_sampled_attempts o) attempt then None else Some (z_do_all_exceptions o)) in *.
@@ -353,10 +352,10 @@ Proof.
       destruct (filter _ (combine (ex_strings failex) (ex_freqs failex))) as [|fr0 frr] eqn:Efresh.
       * injection H as <- _ _ _. exact Hnow.
       * destruct (Z.leb _ _ || Z.ltb _ _).
-        -- eapply IH; [exact HF1|right; exact Hnow|exact H].
+        -- eapply IH; [exact HF1|exact H].
         -- destruct (take_sample samples1 (fr0 :: frr)) as [[pk rest]|err] eqn:Et; cbn [bind] in H; [|discriminate].
            destruct (take_sample_nonempty _ _ _ _ HF1 Et) as [_ HFr].
-           eapply IH; [exact HFr|right; exact Hnow|exact H].
+           eapply IH; [exact HFr|exact H].
 Qed.
 
 (* well-formed stored examples: every stored pair would be kept by clean *)
@@ -430,15 +429,14 @@ Proof.
   set (e := norm_extras (thin_extras (o_extra o) (ex_strings ex))) in *.
   destruct (ex_strings ex) as [|x0 xs] eqn:Eex.
   - inversion H; subst lo. cbn [lo_none]. discriminate.
-  - destruct (extract_loop _ ct o e stripped gt mt all samples1 ex 1 ([], [], [], [])) as [r|err] eqn:El; cbn [bind] in H; [|discriminate].
+  - destruct (extract_loop _ ct o e stripped gt mt all samples1 ex 1) as [r|err] eqn:El; cbn [bind] in H; [|discriminate].
     destruct r as [[[[[[merged rex] re_freqs] lastfail] ex'] samples2] passes].
     rewrite (find_bad_patterns_none o re_freqs Hnp) in H. cbn [mem_nat existsb negb] in H.
     rewrite filter_true in H by reflexivity. rewrite Hperl in H. cbn [bind] in H.
     inversion H; subst lo. cbn [lo_none lo_last_failures lo_rex]. intros _ Hlast s Hs. subst lastfail.
     rewrite map_nth_seq.
     eapply loop_result_covers; [exact Hwf| |exact Hs].
-    eapply (extract_loop_checked _ ct o e stripped gt mt all samples1 ex 1 ([], [], [], [])); [exact HF1| |exact El].
-    left. intro E. assert (0 < Z.to_nat (z_max_sampled_attempts o + 2))%nat by lia. lia.
+    eapply (extract_loop_checked _ ct o e stripped gt mt all samples1 ex 1); [exact HF1|exact El].
 Qed.
 
 (* ------------------------------------------------------------------ clean produces well-formed examples *)
@@ -555,13 +553,12 @@ Proof.
 Qed.
 
 (* ------------------------------------------------------------------ counting and anchoring for the run *)
-Lemma extract_loop_shape fuel ct o e stripped gt mt all : forall samples ex attempt last merged rex rf lf ex' smp' passes,
-  (let '(m0, r0, _, _) := last in length r0 = length m0 /\ (length m0 <= length (ex_strings ex))%nat /\ Forall anchored r0) ->
-  extract_loop fuel ct o e stripped gt mt all samples ex attempt last = Ok (merged, rex, rf, lf, ex', smp', passes) ->
+Lemma extract_loop_shape fuel ct o e stripped gt mt all : forall samples ex attempt merged rex rf lf ex' smp' passes,
+  extract_loop fuel ct o e stripped gt mt all samples ex attempt = Ok (merged, rex, rf, lf, ex', smp', passes) ->
   length rex = length merged /\ (length merged <= length (ex_strings ex'))%nat /\ Forall anchored rex.
 Proof.
-  induction fuel as [|fuel IH]; intros samples ex attempt last merged rex rf lf ex' smp' passes Hlast H.
-  - cbn [extract_loop] in H. inversion H; subst. exact Hlast.
+  induction fuel as [|fuel IH]; intros samples ex attempt merged rex rf lf ex' smp' passes H.
+  - cbn [extract_loop] in H. discriminate.
   - cbn [extract_loop] in H.
     destruct (batch_extract ct o e stripped gt ex) as [[m1 r1]|err] eqn:Eb; cbn [bind] in H; [|discriminate].
     pose proof (batch_extract_shape _ _ _ _ _ _ _ _ Eb) as (Hl1 & Hl2 & Ha).
@@ -573,9 +570,9 @@ Proof.
       destruct (filter _ (combine (ex_strings failex) (ex_freqs failex))) as [|fr0 frr] eqn:Efresh.
       * inversion H; subst. repeat split; assumption.
       * destruct (Z.leb _ _ || Z.ltb _ _).
-        -- eapply IH; [|exact H]. cbn [ex_strings]. rewrite app_length. repeat split; try assumption. lia.
+        -- eapply IH; exact H.
         -- destruct (take_sample samples1 (fr0 :: frr)) as [ps|err]; cbn [bind] in H; [|discriminate].
-           eapply IH; [|exact H]. cbn [ex_strings]. rewrite app_length. repeat split; try assumption. lia.
+           eapply IH; exact H.
 Qed.
 
 (* C13: every returned expression is anchored, and there are never more expressions than working examples
@@ -593,12 +590,9 @@ Proof.
   set (e := norm_extras (thin_extras (o_extra o) (ex_strings ex))) in *.
   destruct (ex_strings ex) as [|x0 xs] eqn:Eex.
   - inversion H; subst lo. cbn. repeat split; try constructor; try lia; reflexivity.
-  - destruct (extract_loop _ ct o e stripped gt mt all samples1 ex 1 ([], [], [], [])) as [r|err] eqn:El; cbn [bind] in H; [|discriminate].
+  - destruct (extract_loop _ ct o e stripped gt mt all samples1 ex 1) as [r|err] eqn:El; cbn [bind] in H; [|discriminate].
     destruct r as [[[[[[merged rex] re_freqs] lastfail] ex'] samples2] passes].
-    assert (Hinit : let '(m0, r0, _, _) := (@nil (list frag), @nil str, @nil Z, @nil str) in
-                    length r0 = length m0 /\ (length m0 <= length (ex_strings ex))%nat /\ Forall anchored r0).
-    { cbn. split; [reflexivity|]. split; [lia|constructor]. }
-    eapply extract_loop_shape in El as (Hl1 & Hl2 & Ha); [|exact Hinit].
+    eapply extract_loop_shape in El as (Hl1 & Hl2 & Ha).
     set (keep := filter _ (seq 0 (length rex))) in *.
     assert (Hkeep : (length keep <= length rex)%nat).
     { subst keep. etransitivity; [apply filter_length_le|]. rewrite seq_length. lia. }
